@@ -63,7 +63,7 @@ func c18Ints(r *mon.Run) {
 		vals = append(vals, pow2(k), sub(pow2(k), bigOne))
 	}
 	vals = append(vals, bi(0), bi(1), bi(255), bi(256))
-	for i := 0; i < r.Pick(300, 5000); i++ {
+	for i := 0; i < r.Pick(300, 20000); i++ {
 		vals = append(vals, randBig(rng, 1+rng.IntN(4096)))
 	}
 	type xmlBox struct {
@@ -484,7 +484,7 @@ func c18Messages(r *mon.Run) {
 	if r.Thorough() {
 		keys = append(keys, "fix1024a")
 	}
-	n := r.Pick(40, 600)
+	n := r.Pick(40, 2000)
 	table := rangeproof.GenerateSquaresTable(200)
 	for i := 0; i < n; i++ {
 		key := world.Fixture(keys[i%len(keys)])
